@@ -51,6 +51,8 @@ type knownFinding struct {
 	ID       string `json:"id"`
 	Witness  string `json:"witness"` // replay file, relative to /verif
 	What     string `json:"what"`
+	// AlsoIn lists other properties whose harnesses meet the same defect and exclude the same region
+	AlsoIn []string `json:"also_in,omitempty"`
 }
 
 type knownFile struct {
@@ -486,6 +488,12 @@ func checkMain(args []string) int {
 	for _, k := range kf.Known {
 		if k.Property == prop {
 			mine = append(mine, k)
+			continue
+		}
+		for _, p := range k.AlsoIn {
+			if p == prop {
+				mine = append(mine, k)
+			}
 		}
 	}
 	confirmed := []string{}
